@@ -31,6 +31,15 @@ def lengthUnits : List Nat :=
 /-- CSS Values 4 §7.1 -/
 def angleUnits : List Nat := [pk! "deg", pk! "grad", pk! "rad", pk! "turn"]
 
+/-- functions whose grammar admits a bare `0` for an `<angle>` (`<angle> | <zero>`): CSS Transforms 1/2 (`rotate*`,
+    `skew*`), Filter Effects 1 (`hue-rotate`), CSS Images 4 (linear and conic gradients: direction, `from`, angular
+    colour stops).  Everywhere else (`rotate: 0deg`, `font-style: oblique 0deg`, `offset-rotate`, …) a unitless
+    zero is not an `<angle>` (CSS Values 4 §7.1).  Lower case. -/
+def zeroAngleFunctions : List Nat :=
+  [pk! "rotate", pk! "rotatex", pk! "rotatey", pk! "rotatez", pk! "rotate3d",
+   pk! "skew", pk! "skewx", pk! "skewy", pk! "hue-rotate",
+   pk! "linear-gradient", pk! "repeating-linear-gradient", pk! "conic-gradient", pk! "repeating-conic-gradient"]
+
 def isLengthOrAngleUnit (u : Nat) : Bool := lengthUnits.contains u || angleUnits.contains u
 
 /-- value of a hex digit given as a code point -/
